@@ -545,7 +545,7 @@ extern('Relay._attempt', params={'self': 'Relay', 'envelope': 'Envelope', 'attem
                'OtherException': ['self.last_outcome == 5']},
        ensures=['implies(result is None or is_type(result, Reply), self.last_outcome == 0)',
                 'implies(is_type(result, Dict[Str, RcptResult]), self.last_outcome == 1 '
-                '   and RESULTS_ok(cast(result, Dict[Str, RcptResult]), envelope))',
+                '   and RESULTS_ok(cast(result, Dict[Str, RcptResult]), envelope) and dict_wf(cast(result, Dict[Str, RcptResult])))',
                 'implies(is_type(result, List[RcptResult]), self.last_outcome == 2 '
                 '   and len(cast(result, List[RcptResult])) == len(envelope.recipients) '
                 '   and forall(cast(result, List[RcptResult]), lambda v: implies(isinstance(v, RelayError), '
